@@ -120,7 +120,7 @@ package json
 // ---- NewNumber / Scan: grammar (NUM automaton of /verif/spec/number.smt2) and normal form --------------
 
 //@ func appendZeros
-//@   property C13 C02
+//@   property C13 C02 C01
 //@   requires true
 //@   modifies elems(to.data)
 //@   ensures len(result.data) == len(to.data) + (n > 0 ? n : 0)
@@ -142,7 +142,7 @@ package json
 //@   loop#1 decreases n
 
 //@ func appendDigits
-//@   property C13 C02
+//@   property C13 C02 C01
 //@   requires from.data.arr != to.data.arr || to.data.arr == 0
 //@   modifies elems(to.data)
 //@   ensures len(result.data) == len(to.data) + mantcount(from.data, len(from.data))
@@ -167,7 +167,7 @@ package json
 //@   at return#1 use unfold_mantval(from.data, rangeindex+1); mantval_stable(from.data, rangeindex+1, len(from.data))
 
 //@ func (*Number).trimLeadingZerosInTheIntegerPart
-//@   property C13 C02
+//@   property C13 C02 C01
 //@   requires n != nil && isDigitBytes(n.nat)
 //@   modifies n.nat
 //@   ensures (result == nil) == (0 <= old(n.exp) && old(n.exp) <= old(len(n.nat.data)))
@@ -183,7 +183,7 @@ package json
 //@   loop#1 decreases intLen
 
 //@ func (*Number).trimTrailingZerosInTheFractionalPart
-//@   property C13 C02
+//@   property C13 C02 C01
 //@   requires n != nil && isDigitBytes(n.nat)
 //@   modifies n.nat, n.exp
 //@   ensures (result == nil) == (0 <= old(n.exp) && old(n.exp) <= old(len(n.nat.data)))
@@ -230,7 +230,7 @@ package json
 //@ pred scanState(s *scanner, q Int, value bytes.Bytes, r Int) := scanBase(s, q, value, r) && scanS(s, q, value, r) && scanM(s, q, value, r) && scanZ(s, q, value, r) && scanI(s, q, value, r) && scanP(s, q, value, r) && scanF(s, q, value, r) && scanE(s, q, value, r) && scanG(s, q, value, r) && scanX(s, q, value, r) && scanD(s, q, value, r) && scanFin(s, q, value, r) && scanStop(s, q, value, r)
 
 //@ func (*scanner).Scan
-//@   property C13 C02
+//@   property C13 C02 C01
 //@   requires s != nil && scanState(s, NUM_S, value, -1) && !s.finished
 //@   requires len(value.data) <= 1099511627776
 //@   assumes number texts are shorter than 2^40 bytes (memory is otherwise unbounded in the model)
